@@ -13,8 +13,8 @@ PROPS = {
              "locally answered and forwarded requests and at least one poll returned >=2 ready descriptors; distinct = distinct hash of the "
              "proxy-visible event sequence (ordered ready lists + syscall result classes); variant crowd: 140-330 connections with short "
              "pipelines that become ready in the same polls (the poller's 128-entry event list is exceeded and must grow)",
-        quick=dict(budget_s=80, profiles=[P("C01", 450), P("C01", 12, "crowd")]),
-        thorough=dict(budget_s=1800, profiles=[P("C01", 20000), P("C01", 6000, "deep"), P("C01", 800, "crowd")]),
+        quick=dict(budget_s=80, profiles=[P("C01", 450), P("C01", 12, "crowd"), P("C01", 8, "backlog")]),
+        thorough=dict(budget_s=1800, profiles=[P("C01", 20000), P("C01", 6000, "deep"), P("C01", 800, "crowd"), P("C01", 300, "backlog")]),
         reach=["PollsMulti", "ShortReads", "ShortWrites", "PollsTruncated"],
     ),
     "C09": dict(
@@ -65,8 +65,8 @@ PROPS = {
         rule="MGET/DEL/MSET with 1-300 keys (thorough: up to 5000), duplicates, many keys per slot via hash tags, empty and binary keys/values over "
              "random slot layouts; oracle on the wire at the backends: one well-formed same-kind fragment per distinct slot carrying exactly the "
              "request's keys of that slot in order; non-trivial = request spans several slots. The input dimension is sampled.",
-        quick=dict(budget_s=80, profiles=[P("C06", 400)]),
-        thorough=dict(budget_s=1500, profiles=[P("C06", 12000), P("C06", 200, "huge")]),
+        quick=dict(budget_s=80, profiles=[P("C06", 400), P("C06", 100, "fdreuse")]),
+        thorough=dict(budget_s=1500, profiles=[P("C06", 12000), P("C06", 200, "huge"), P("C06", 4000, "fdreuse")]),
         reach=["c06_multislot_requests", "c06_rejected_oversized"],
     ),
     "C07": dict(
